@@ -4,12 +4,12 @@
 (*                                                                         *)
 (* (1) Validation of BitsFn.tla at width 8 against plain integer           *)
 (*     arithmetic (rows of the unit "validate8": one row per first         *)
-(*     operand; thorough tier: all of 0..255, quick tier: 8 boundary       *)
-(*     values; second operand: always all of 0..255) -- the operators are  *)
-(*     width-generic, this                                                 *)
-(*     is the evidence for their 32- and 64-bit instances -- and algebraic *)
+(*     operand -- thorough tier: every even value and 1, 127, 129, 255;    *)
+(*     quick tier: 6 boundary values; the second operand always ranges     *)
+(*     over all of 0..255).  The operators are width-generic: this is the  *)
+(*     evidence for their 32- and 64-bit instances.  In addition algebraic *)
 (*     sanity of every enumerated 32/64-bit case (q*y + r = hi:lo, r < y,  *)
-(*     Sub undoes Add, ...), invariant Sane.                               *)
+(*     Sub undoes Add, Mul commutes), invariant Sane.                      *)
 (* (2) Enumeration: for every function of math/bits under test and every   *)
 (*     argument tuple over the boundary grid (plus VERIF_SEED operands)    *)
 (*     the predicted result; one JSON line per (function, first argument): *)
@@ -44,8 +44,8 @@ S(w) == {ToLimbs(v) : v \in SmallBits(w)} \cup RandOf(w)
 LoGrid(w) == IF Quick \/ w = 64 THEN {ToLimbs(v) : v \in TinyBits(w)} \cup RandOf(w) ELSE S(w)
 MulGrid(w) == IF w = 64 THEN S(w) ELSE G(w)
 DivGrid(w) == IF Quick \/ w = 64 THEN S(w) ELSE G(w)
-ValidateRows == IF Quick THEN {0, 1, 2, 127, 128, 129, 254, 255} ELSE 0..255
-ValidateLos(a, b) == IF Quick THEN {(a * 7 + b) % 256} ELSE {0, 255, (a * 7 + b) % 256}
+ValidateRows == IF Quick THEN {0, 1, 127, 128, 254, 255} ELSE {k \in 0..255 : k % 2 = 0} \cup {1, 127, 129, 255}
+ValidateLos(a, b) == IF Quick THEN {(a * 7 + b) % 256} ELSE {255, (a * 7 + b) % 256}
 Rot == {0, 1, 7, 8, 31, 32, 33, 63, 64, 65, -1, -8, -33, 100}
 
 Fns == Range(BitsFns)
@@ -79,7 +79,10 @@ Cases(fn, a) ==
     [] b = "Reverse" -> {<<<<a>>, ToLimbs(Reverse(x))>>}
     [] b = "ReverseBytes" -> {<<<<a>>, ToLimbs(ReverseBytes(x))>>}
 
-FirstArgs(fn) == IF Ternary(fn) THEN (IF Quick \/ WOf(fn) = 64 THEN LoGrid(WOf(fn)) ELSE S(WOf(fn))) ELSE IF Base(fn) = "Mul" THEN MulGrid(WOf(fn)) ELSE G(WOf(fn))
+FirstArgs(fn) == IF Ternary(fn) THEN (IF Quick \/ WOf(fn) = 64 THEN LoGrid(WOf(fn)) ELSE S(WOf(fn)))
+                 ELSE IF Base(fn) = "Mul" THEN (IF Quick THEN S(WOf(fn)) ELSE MulGrid(WOf(fn)))
+                 ELSE IF Quick /\ Base(fn) \in {"Add", "Sub"} THEN S(WOf(fn))
+                 ELSE G(WOf(fn))
 
 (***************************************************************************)
 (* Validation at width 8                                                   *)
